@@ -19,7 +19,7 @@ from dateutil.parser import parse
 
 from .utils.xml import (
     remove_node, replace_node, insert_node, find_child, find_child_by_id,
-    append_node
+    append_node, move_nodes
 )
 from .utils import s3
 from .moselements import Story, Item
@@ -953,7 +953,7 @@ class ItemMoveMultiple(MosFile):
             )
 
         if self.item is None:
-            target_item_index = len(story)
+            target_item = None
         else:
             target_item, target_item_index = find_child_by_id(parent=story, child_tag='item', id=self.item.id)
             if target_item is None:
@@ -961,14 +961,20 @@ class ItemMoveMultiple(MosFile):
                     f"{self.__class__.__name__} error in {self.message_id} - target item not found"
                 )
 
-        for i, item in enumerate(self.items, start=target_item_index):
+        # validate every source item before moving anything
+        source_items = []
+        for item in self.items:
             source_item, source_item_index = find_child_by_id(parent=story, child_tag='item', id=item.id)
             if source_item_index is None:
                 raise MosMergeError(
                     f"{self.__class__.__name__} error in {self.message_id} - source item not found"
                 )
-            remove_node(parent=story, node=source_item)
-            insert_node(parent=story, node=source_item, index=i)
+            if source_item is target_item or any(source_item is si for si in source_items):
+                raise MosMergeError(
+                    f"{self.__class__.__name__} error in {self.message_id} - duplicate item given"
+                )
+            source_items.append(source_item)
+        move_nodes(parent=story, nodes=source_items, before=target_item)
 
         return ro
 
@@ -1885,7 +1891,7 @@ class EAStoryMove(ElementAction):
         Merge into the :class:`RunningOrder` object provided.
         """
         if self.story is None:
-            target_story_index = len(ro.base_tag)
+            target_story = None
         else:
             target_story, target_story_index = find_child_by_id(parent=ro.base_tag, child_tag='story', id=self.story.id)
             if target_story is None:
@@ -1893,14 +1899,20 @@ class EAStoryMove(ElementAction):
                     f"{self.__class__.__name__} error in {self.message_id} - target story not found"
                 )
 
+        # validate every source story before moving anything
+        stories = []
         for source_story in self.stories:
             story, source_index = find_child_by_id(parent=ro.base_tag, child_tag='story', id=source_story.id)
             if story is None:
                 raise MosMergeError(
                     f"{self.__class__.__name__} error in {self.message_id} - source story not found"
                 )
-            remove_node(parent=ro.base_tag, node=story)
-            insert_node(parent=ro.base_tag, node=story, index=target_story_index)
+            if story is target_story or any(story is s for s in stories):
+                raise MosMergeError(
+                    f"{self.__class__.__name__} error in {self.message_id} - duplicate story given"
+                )
+            stories.append(story)
+        move_nodes(parent=ro.base_tag, nodes=stories, before=target_story)
         return ro
 
     def inspect(self):
@@ -1970,14 +1982,20 @@ class EAItemMove(ElementAction):
             raise MosMergeError(
                 f"{self.__class__.__name__} error in {self.message_id} - target item not found"
             )
-        for i, source_item in enumerate(self.items, start=target_item_index):
+        # validate every source item before moving anything
+        items = []
+        for source_item in self.items:
             item, item_index = find_child_by_id(parent=story, child_tag='item', id=source_item.id)
             if item is None:
                 raise MosMergeError(
                     f"{self.__class__.__name__} error in {self.message_id} - source item not found"
                 )
-            remove_node(parent=story, node=item)
-            insert_node(parent=story, node=item, index=i)
+            if item is target_item or any(item is i for i in items):
+                raise MosMergeError(
+                    f"{self.__class__.__name__} error in {self.message_id} - duplicate item given"
+                )
+            items.append(item)
+        move_nodes(parent=story, nodes=items, before=target_item)
         return ro
 
     def inspect(self):
